@@ -419,11 +419,15 @@ pub open spec fn join_terms(s: SS, ts: Seq<Unifiable>, n: int) -> Seq<Unifiable>
 {
     if n <= 0 { Seq::empty() } else { join_terms(s, ts, n - 1) + join_arg(s, ts[n - 1]) }
 }
+// (the statement: "the resolved values of its arguments and list elements")
 pub open spec fn join_arg(s: SS, t: Unifiable) -> Seq<Unifiable> {
     match ground_of(s, t) {
-        Some(g) => if g is SLinkedList { thru_first_val(s, g, true) } else { seq![g] },
+        Some(g) => if g is SLinkedList { resolved_seq(s, thru_first_val(s, g, true)) } else { seq![g] },
         None => seq![t],
     }
+}
+pub open spec fn resolved_seq(s: SS, q: Seq<Unifiable>) -> Seq<Unifiable> {
+    q.map_values(|e: Unifiable| rv(s, e))
 }
 pub open spec fn join_pre(s: SS, ts: Seq<Unifiable>) -> bool {
     forall|i: int| 0 <= i < ts.len() ==> walk_pre(s, #[trigger] ts[i], true)
